@@ -62,10 +62,13 @@ def app_case(rng, scripts, nctx, nents, with_blocker, L, with_ops=False):
         for _ in range(rng.randint(1, 3)):
             e = rng.choice(ents); c = rng.choice(menu)
             opsat.setdefault(rng.randrange(1, L), []).append(rng.choice([remove(e, c), remove(e, c), despawn(e), insert(e, c)]))
+    paused = False
     for i in range(L):
         for o in opsat.get(i, []):
             steps.append(sop(o))
-        steps.append(frame(raw(), rand_dt(rng)))
+        # now and then the virtual clock is paused: evaluation and delivery go on all the same
+        if with_ops and rng.random() < 0.15: paused = not paused
+        steps.append(frame(raw(), rand_dt(rng), F(1), paused))
     return scenario(menu, ents, cfg, steps)
 
 def app_cases(tier, rng):
@@ -98,7 +101,7 @@ STAGES = [dict(name='data', mode='unit', coq='Check.C01u', cases=unit_cases, non
                exhaustive={'thorough': True, 'quick': True},
                rule='real App: 1-3 context types (exclusive and shared), 1-3 entities, actions of all four output types, each driven by a scripted explicit condition, '
                     'a scripted modifier producing values of arbitrary dimension, optionally a scripted events-only blocker and a scripted plain blocker; every state script over {None,Ongoing,Fired} of length '
-                    '<= 3 (quick) / <= 5 (thorough) drives some action, plus sticky random scripts of 5..30 frames, half of them with 1-3 component removals / despawns / insertions between frames; non-trivial = an episode starts; distinct = distinct scenario text')]
+                    '<= 3 (quick) / <= 5 (thorough) drives some action, plus sticky random scripts of 5..30 frames, half of them with 1-3 component removals / despawns / insertions between frames and with the virtual clock paused for some frames; non-trivial = an episode starts; distinct = distinct scenario text')]
 
 CLAUSES = {1: 'events of a frame are not the transition table of (previous polled state, polled state), Started first, one per holder, payload = polled data (or delivered although events-blocked)',
            2: 'polled event flags differ from the table', 3: 'polled value does not have the declared output type', 4: 'an action event was delivered before the frame\'s evaluation',
